@@ -103,7 +103,7 @@ func c12FirstWord(cs *drv.Case, w uint32) {
 
 func monC12(c *drv.Ctx) {
 	// (1) random envelopes
-	c.Stage("envelopes", c.Pick(20000, 1500000), false, func(cs *drv.Case) {
+	c.Stage("envelopes", c.Pick(200000, 2000000), false, func(cs *drv.Case) {
 		r := cs.R
 		var name string
 		switch r.Intn(10) {
@@ -141,7 +141,7 @@ func monC12(c *drv.Ctx) {
 		cs.Count(true, "word", cs.Idx)
 	})
 	// (4) every truncation point of envelopes / messages must be rejected
-	c.Stage("truncations", c.Pick(1500, 60000), false, func(cs *drv.Case) {
+	c.Stage("truncations", c.Pick(6000, 100000), false, func(cs *drv.Case) {
 		r := cs.R
 		name := string(gen.Bytes(r, r.Intn(30)))
 		if r.Intn(6) == 0 {
@@ -190,7 +190,7 @@ func monC12(c *drv.Ctx) {
 		cs.C.Obs("truncation sweeps", 1)
 	})
 	// (5) MarshalFastMsg -> UnmarshalFastMsg; EXCEPTION messages surface as errors
-	c.Stage("messages", c.Pick(10000, 500000), false, func(cs *drv.Case) {
+	c.Stage("messages", c.Pick(100000, 1000000), false, func(cs *drv.Case) {
 		r := cs.R
 		method := string(gen.Bytes(r, 1+r.Intn(30)))
 		if r.Intn(20) == 0 {
